@@ -188,8 +188,18 @@ def run(ctx):
             bad("weights-and-running-totals-differ", "C16/cum-weights-not-equivalent", weights_result=repr(r_w)[:100], cum_result=repr(r_c)[:100])
             continue
         # the same running totals in other spellings: tuple, whole values as int, everything as float
-        for vname, cwv in (("tuple", tuple(cw)), ("whole-as-int", [int(c) if float(c).is_integer() else c for c in cw]),
-                           ("all-float", [float(c) for c in cw])):
+        def exactly_float(c):
+            try:
+                return float(c) == c
+            except OverflowError:
+                return False
+
+        spellings = [("tuple", tuple(cw)), ("whole-as-int", [int(c) if isinstance(c, float) and c.is_integer() else c for c in cw])]
+        if all(exactly_float(c) for c in cw):
+            # (a whole number beyond 2^53 is in general not a float: writing it as one would be another total, not another
+            # spelling of the same total)
+            spellings.append(("all-float", [float(c) for c in cw]))
+        for vname, cwv in spellings:
             r_v = outcome(dc, uid, pop, cum_weights=cwv)
             ctx.evaluated()
             if r_v[0] == "contract":
